@@ -234,7 +234,8 @@ func (e *pccEngine) track(fn *ssa.Function, v ssa.Value, T pccType, depth int, r
 						ok := false
 						for w := range backSlice(cc.Args[1]) {
 							if gc, isCall := w.(*ssa.Call); isCall {
-								if gf := calleeOf(gc); gf != nil && gf.Name() == attr && recvNamed(gf) == T.T {
+								if gf := calleeOf(gc); gf != nil && gf.Name() == attr && recvNamed(gf) == T.T && len(gc.Call.Args) > 0 && !is(gc.Call.Args[0]) {
+									// read from another value of the type, not from the fresh container itself
 									ok = true
 								}
 							}
@@ -267,7 +268,7 @@ func (e *pccEngine) track(fn *ssa.Function, v ssa.Value, T pccType, depth int, r
 								}
 								src, ok := strip(c2.Common().Args[0]).(*ssa.Call)
 								if ok {
-									if sf := calleeOf(src); sf != nil && sf.Name() == attr && recvNamed(sf) == T.T {
+									if sf := calleeOf(src); sf != nil && sf.Name() == attr && recvNamed(sf) == T.T && len(src.Call.Args) > 0 && !is(src.Call.Args[0]) {
 										res.set[attr] = true
 									}
 								}
